@@ -131,6 +131,31 @@ func (configgen *ConfigGeneratorImpl) buildGatewayListeners(builder *ListenerBui
 	proxyConfig := builder.node.Metadata.ProxyConfigOrDefault(builder.push.Mesh.DefaultConfig)
 	// listener port -> host/bind
 	tlsHostsByPort := map[uint32]map[string]string{}
+	// The SNI hosts of the servers that terminate TLS become filter chain matches of their listener. Make them known
+	// before any filter chain is built, so that a VirtualService SNI route of a passthrough server for one of these
+	// hosts is skipped as a duplicate instead of yielding a second filter chain with the same match (Envoy rejects
+	// the listener). All servers of a port number are registered up front: servers with different protocols (TLS vs.
+	// HTTPS) or binds are separate entries of ServerPorts but share one listener, and the passthrough server may come
+	// first.
+	for _, port := range mergedGateway.ServerPorts {
+		serversForPort := mergedGateway.MergedServers[port]
+		if serversForPort == nil {
+			continue
+		}
+		for _, server := range serversForPort.Servers {
+			// TLSServerInfo has no entry for a plain text HTTP server with tls.httpsRedirect
+			if info := mergedGateway.TLSServerInfo[server]; info != nil && !gateway.IsPassThroughServer(server) {
+				if tlsHostsByPort[port.Number] == nil {
+					tlsHostsByPort[port.Number] = map[string]string{}
+				}
+				// one host at a time: CheckDuplicates records nothing when any host of the list is already known, and
+				// the other hosts of such a server would stay unprotected
+				for _, sniHost := range info.SNIHosts {
+					model.CheckDuplicates([]string{sniHost}, server.Bind, tlsHostsByPort[port.Number])
+				}
+			}
+		}
+	}
 	for _, port := range mergedGateway.ServerPorts {
 		// Skip ports we cannot bind to. Note that mergeGateways will already translate Service port to
 		// targetPort, which handles the common case of exposing ports like 80 and 443 but listening on
@@ -294,21 +319,6 @@ func (configgen *ConfigGeneratorImpl) buildGatewayTCPBasedFilterChains(
 		//   or HTTPS servers using passthrough TLS
 		// This process typically yields multiple filter chain matches (with SNI) [if TLS is used]
 
-		// The SNI hosts of the servers that terminate TLS become filter chain matches of this listener. Make them
-		// known first, so that a VirtualService SNI route of a passthrough server for one of these hosts is skipped
-		// as a duplicate instead of yielding a second filter chain with the same match (Envoy rejects the listener).
-		for _, server := range serversForPort.Servers {
-			if server.Tls != nil && !gateway.IsPassThroughServer(server) {
-				if tlsHostsByPort[port.Number] == nil {
-					tlsHostsByPort[port.Number] = map[string]string{}
-				}
-				// one host at a time: CheckDuplicates records nothing when any host of the list is already known, and
-				// the other hosts of such a server would stay unprotected
-				for _, sniHost := range mergedGateway.TLSServerInfo[server].SNIHosts {
-					model.CheckDuplicates([]string{sniHost}, server.Bind, tlsHostsByPort[port.Number])
-				}
-			}
-		}
 		for _, server := range serversForPort.Servers {
 			if gateway.IsHTTPSServerWithTLSTermination(server) {
 				routeName := mergedGateway.TLSServerInfo[server].RouteName
